@@ -564,6 +564,68 @@ func toSyms(s string) automata.String {
 	return r
 }
 
+// ---------------------------------------------------------------- the library's exported package-level helpers
+
+// wlHelpers uses the package-level Hash*/Eq*/Cmp* values the library exports (automata.HashState, lr.HashState,
+// grammar.HashSymbol ...) as the hash/equality/order of tables and sets the goroutine creates itself.
+func wlHelpers(inst int) string {
+	r := &sm{s: uint64(7000 + inst)}
+	eqI := generic.NewEqualFunc[int]()
+	opts := symboltable.HashOpts{}
+	var out []string
+	aSt := symboltable.NewLinearHashTable(automata.HashState, automata.EqState, eqI, opts)
+	aSy := symboltable.NewChainHashTable(automata.HashSymbol, automata.EqSymbol, eqI, opts)
+	lSt := symboltable.NewDoubleHashTable(lr.HashState, lr.EqState, eqI, opts)
+	gT := symboltable.NewQuadraticHashTable(grammar.HashTerminal, grammar.EqTerminal, eqI, opts)
+	gN := symboltable.NewLinearHashTable(grammar.HashNonTerminal, grammar.EqNonTerminal, eqI, opts)
+	gS := symboltable.NewChainHashTable(grammar.HashSymbol, grammar.EqSymbol, eqI, opts)
+	gW := symboltable.NewLinearHashTable(grammar.HashString, grammar.EqString, eqI, opts)
+	gP := symboltable.NewChainHashTable(grammar.HashProduction, grammar.EqProduction, eqI, opts)
+	var hs []string
+	for i := 0; i < 60; i++ {
+		k := r.intn(500) + inst
+		aSt.Put(automata.State(k), i)
+		aSy.Put(automata.Symbol('a'+rune(k%26)), i)
+		lSt.Put(lr.State(k), i)
+		t := grammar.Terminal(fmt.Sprintf("t%d", k))
+		n := grammar.NonTerminal(fmt.Sprintf("N%d", k))
+		w := grammar.String[grammar.Symbol]{n, t, n}
+		p := &grammar.Production{Head: n, Body: w}
+		gT.Put(t, i)
+		gN.Put(n, i)
+		gS.Put(n, i)
+		gS.Put(t, i)
+		gW.Put(w, i)
+		gP.Put(p, i)
+		hs = append(hs, fmt.Sprintf("%x.%x.%x.%x.%x.%x.%x.%x", automata.HashState(automata.State(k)), automata.HashSymbol(automata.Symbol(k)),
+			lr.HashState(lr.State(k)), grammar.HashTerminal(t), grammar.HashNonTerminal(n), grammar.HashSymbol(t), grammar.HashString(w), grammar.HashProduction(p)))
+		if v, ok := gW.Get(w); !ok || v != i {
+			hs = append(hs, "LOST")
+		}
+		if v, ok := gP.Get(p); !ok || v != i {
+			hs = append(hs, "LOST")
+		}
+	}
+	out = append(out, strings.Join(hs, ","))
+	out = append(out, fmt.Sprint(aSt.Size(), aSy.Size(), lSt.Size(), gT.Size(), gN.Size(), gS.Size(), gW.Size(), gP.Size()))
+	var ks []string
+	for k, v := range lSt.All() {
+		ks = append(ks, fmt.Sprintf("%d=%d", k, v))
+	}
+	sort.Strings(ks)
+	out = append(out, strings.Join(ks, ","))
+	ss := automata.NewStates()
+	for i := 0; i < 30; i++ {
+		ss.Add(automata.State(r.intn(40)))
+	}
+	var sl []string
+	for s := range ss.All() {
+		sl = append(sl, fmt.Sprint(int(s)))
+	}
+	out = append(out, strings.Join(sl, ","), fmt.Sprint(lr.CmpState(3, 4), automata.CmpSymbol('a', 'b'), grammar.CmpTerminal("a", "b"), grammar.CmpNonTerminal("B", "A")))
+	return dig(out...)
+}
+
 var workloads = []workload{
 	{"hashtables", "fill and iterate own chain/linear/quadratic/double hash tables (own hash functions)", wlHashTables},
 	{"ordered", "own BST/AVL/red-black tables", wlOrderedTables},
@@ -577,5 +639,6 @@ var workloads = []workload{
 	{"slr", "SLR tables and parses of own grammars", wlSLR},
 	{"lalr", "LALR tables and parses of own grammars", wlLALR},
 	{"lr1", "canonical LR(1) tables and parses of own grammars", wlLR1},
+	{"helpers", "own tables and sets keyed through the library's exported package-level Hash*/Eq*/Cmp* values (automata, lr, grammar)", wlHelpers},
 	{"automata", "own NFA: subset construction, minimisation, dead-state elimination, reindexing, combinators", wlAutomata},
 }
